@@ -2,6 +2,7 @@ import Heathcliff.Proofs.C03K
 import Heathcliff.Proofs.C02K
 import Heathcliff.Proofs.C07L
 import Heathcliff.Proofs.GenValid
+import Heathcliff.Proofs.GenEvalCt2
 /-
   C03 — the algebra of CKKS evaluation is scheme independent: the theorems of C02 (`ct_mul_phase`, `translate_phase`,
   `negate_phase`, `mul_plain_phase`, `add_plain_phase`) hold in any commutative ring and are restated here because the CKKS
@@ -247,4 +248,27 @@ theorem c03k_exRef2_ok : type_of% @HC.c03k_exRef2_ok := @HC.c03k_exRef2_ok
 /-- the program theorem applies to a concrete run that multiplies and relinearises -/
 theorem c03k_program_relin_nonvacuous : type_of% @HC.c03k_program_relin_nonvacuous := @HC.c03k_program_relin_nonvacuous
 
+/-! ### translator tie (phase 4g): the CKKS scale bookkeeping of `Evaluator::ckks_multiply`, `ckks_square`, `multiply_plain_ntt` and the scale
+     refusal of `mod_switch_drop_to_next_internal`, generated from src/evaluator.rs (Gen/EvalCtFns.lean, Gen/EvalFns.lean) = the decision
+     functions of Model/Evaluator.lean (Proofs/GenEval2.lean, Proofs/GenEvalCt2.lean).  Scales are floats, opaque to the translator: the skeletons
+     track WHICH scale the slot holds (own / product) and take the verdicts of `is_scale_within_bounds` about the own and the product scale, at
+     the operands' level and at the first level, as separate Boolean inputs.  Tied by the proofs: the product is recorded, the check comes AFTER
+     the data, and the verdict consulted is the one about the PRODUCT at the OPERANDS' level (rule of `c03k_opMul` / `c03k_opMulPlain`). -/
+theorem gen_ckks_multiply_bookkeeping_eq : type_of% @HC.gl_ckks_multiply_eq := @HC.gl_ckks_multiply_eq
+theorem gen_ckks_square_bookkeeping_eq : type_of% @HC.gl_ckks_square_eq := @HC.gl_ckks_square_eq
+theorem gen_ckks_multiply_refuses : type_of% @HC.gl_ckks_multiply_refuses := @HC.gl_ckks_multiply_refuses
+theorem gen_multiply_plain_ntt_eq : type_of% @HC.gc_multiply_plain_ntt_eq := @HC.gc_multiply_plain_ntt_eq
+theorem gen_mod_switch_drop_decision_bits : type_of% @HC.gl_mod_switch_drop_decision_bits := @HC.gl_mod_switch_drop_decision_bits
+theorem gen_mod_switch_drop_refuses_unfit : type_of% @HC.gl_mod_switch_drop_refuses_unfit := @HC.gl_mod_switch_drop_refuses_unfit
+/-- non-vacuity of the hypothesis bundle of the bookkeeping ties (two fresh ciphertexts, N = 8192, three moduli) -/
+example : HC.GenC.ckks_multiply_sk true true 2 2 8192 3 true true true true = .ok (3, 1) := by
+  rw [HC.gl_ckks_multiply_eq _ _ _ _ _ _ _ _ _ _ (by norm_num) (by norm_num) (by norm_num) (by norm_num)]; decide
+
+/-- `multiply_plain_normal` (coefficient-form operands): the ROUTE (monomial shortcut / generic NTT route, with / without the fast plain lift; the
+    data steps are codes, the last of the generic route being the FULL inverse transform `intt_ps`) and the CKKS scale rule at both exits -/
+theorem gen_multiply_plain_normal_plan_eq : type_of% @HC.gl_multiply_plain_normal_plan_eq := @HC.gl_multiply_plain_normal_plan_eq
+example : HC.GenC.ckks_square_sk true 2 8192 3 true true true true = .ok (3, 1) := by
+  rw [HC.gl_ckks_square_eq _ _ _ _ _ _ _ _ (by norm_num) (by norm_num) (by norm_num) (by norm_num) (by norm_num)]; decide
+example : HC.GenC.ct_multiply_plain_normal_plan 5 false true 8192 3 .ckks true false = .error .refused := by
+  rw [HC.gl_multiply_plain_normal_plan_eq _ _ _ _ _ _ _ _ (by norm_num)]; rfl
 end HC.C03
